@@ -259,7 +259,8 @@ def _alarm(signum, frame):
 CASE_TIMEOUT = int(os.environ.get("VERIF_CASE_TIMEOUT", "20"))
 
 
-def _impl_one(case):
+def _guarded(fn, case):
+    """run fn(case) under the per-case SIGALRM watchdog; -> (result, hung?)"""
     import signal
     old = None
     try:
@@ -268,25 +269,43 @@ def _impl_one(case):
     except ValueError:   # not in the main thread
         old = None
     try:
-        return _IMPL(case)
+        return fn(case), False
     except CaseTimeout:
-        return ["driver-exception", "Hung", "the case did not finish within %d s" % CASE_TIMEOUT]
-    except BaseException as e:  # the driver itself failed: visible as an observation
-        return ["driver-exception", type(e).__name__, str(e)[:200]]
+        return None, True
     finally:
         if old is not None:
             signal.alarm(0)
             signal.signal(signal.SIGALRM, old)
 
 
+def _impl_one(case):
+    try:
+        r, hung = _guarded(_IMPL, case)
+    except BaseException as e:  # the driver itself failed: visible as an observation
+        return ["driver-exception", type(e).__name__, str(e)[:200]]
+    if hung:
+        return ["driver-exception", "Hung", "the case did not finish within %d s" % CASE_TIMEOUT]
+    return r
+
+
 _ENCODE = None
 
 
 def _encode_one(c):
+    # an ENCODE hook may run baize too (C12, C20): the same watchdog
     try:
-        return _ENCODE(c)
+        r, hung = _guarded(_ENCODE, c)
     except BaseException as e:  # noqa
         return "encode-failed " + type(e).__name__
+    return "encode-failed Hung" if hung else r
+
+
+# When the code under test hangs on a whole class of inputs every such case costs a full watchdog period.  After
+# HUNG_CAP hanging cases (counted over all workers) the remaining cases are not run: they are observed as NotRun, which
+# is a correspondence mismatch, and the check reports the hang (oracle: Hung) within minutes instead of hours.
+HUNG_CAP = 8
+_HUNG = None
+_NOTRUN = ["driver-exception", "NotRun", "not run: %d cases had already hung in this check" % HUNG_CAP]
 
 
 def _impl_chunk(cases):
@@ -294,8 +313,19 @@ def _impl_chunk(cases):
     # baize (e.g. to obtain the bare application's trace) and must not start threads in
     # the parent before the fork
     cov = _cov_start()
+    out = []
     try:
-        return [(_encode_one(c), enc_line(_as_items(_impl_one(c)))) for c in cases]
+        for c in cases:
+            if _HUNG is not None and _HUNG.value >= HUNG_CAP:
+                out.append(("encode-skipped", enc_line(_NOTRUN)))
+                continue
+            line = _encode_one(c)
+            obs = _as_items(_impl_one(c))
+            if _HUNG is not None and (line == "encode-failed Hung" or obs[:2] == ["driver-exception", "Hung"]):
+                with _HUNG.get_lock():
+                    _HUNG.value += 1
+            out.append((line, enc_line(obs)))
+        return out
     finally:
         _cov_stop(cov)
 
@@ -332,11 +362,13 @@ def run_impl(mod, cases, parallel=True):
 
 
 def _run_impl_pairs(mod, cases, parallel=True):
-    global _IMPL, _ENCODE
+    global _IMPL, _ENCODE, _HUNG
     _IMPL = mod.impl
     _ENCODE = getattr(mod, "ENCODE", enc_line)
     if not cases:
         return []
+    if _HUNG is None:
+        _HUNG = mp.get_context("fork").Value("i", 0)     # shared with the forked workers
     if not parallel or getattr(mod, "SERIAL", False):
         return _impl_chunk(cases)
     if len(cases) < 64:
@@ -384,7 +416,7 @@ def _isolate(ctx, chunk):
     try:
         for c in chunk:
             if found >= 2:      # enough examples: the rest of the chunk is not run again
-                out.append((_encode_one(c), enc_line(["driver-exception", "NotRun", "skipped after two hanging cases in this chunk"])))
+                out.append(("encode-skipped", enc_line(["driver-exception", "NotRun", "skipped after two hanging cases in this chunk"])))
                 continue
             h = pool.apply_async(_impl_chunk, ([c],))
             try:
@@ -393,7 +425,7 @@ def _isolate(ctx, chunk):
                 found += 1
                 pool.terminate()
                 pool = ctx.Pool(1)
-                out.append((_encode_one(c), enc_line(["driver-exception", "Hung",
+                out.append(("encode-skipped", enc_line(["driver-exception", "Hung",
                                                       "the implementation never returned on this case (worker killed after %ds)" % int(limit)])))
     finally:
         pool.terminate()
@@ -779,6 +811,9 @@ def _cleanup_rundir(pid):
 def main(mod):
     import argparse
     import atexit
+    import faulthandler
+    import signal
+    faulthandler.register(signal.SIGUSR1, all_threads=True)    # kill -USR1 <pid>: where is it? (inherited by the workers)
     atexit.register(_cleanup_rundir, mod.PID)
     ap = argparse.ArgumentParser()
     ap.add_argument("tier", nargs="?", default=os.environ.get("VERIF_TIER", "quick"))
